@@ -121,6 +121,9 @@ func (h *inFlightRequestsHandler) onIncomingFrameReceived(f *frame.Frame) error 
 			h.removeInFlight(streamId)
 			if inFlight.managedStreamId {
 				if err := h.releaseStreamId(streamId); err != nil {
+					// the handler was closed meanwhile: the request is no longer registered, so nobody
+					// else will complete it
+					inFlight.close(err)
 					return err
 				}
 			}
